@@ -44,8 +44,11 @@ TRUSTED = [
     "(s*s = max(lambda,0) to 4 ulp), Eigen colwise().mean()/mean() (exact on the dyadic stream)",
     "IEEE rounding: theorems are over exact fields (any field; closed at Qc); rounding enters only through "
     "the tolerance stream (1e-8 relative to the top eigenvalue, 1e-6 for the randomized solver)",
-    "Eckart-Young-Mirsky optimality of the top-d spectral truncation is cited, not proved (theorems named "
-    "_partial); the rank argument 'points span <= d dimensions => all but d eigenvalues vanish' is a hypothesis",
+    "optimality: Eckart-Young is PROVED for competitors Q C Q^T with Q any orthonormal d-frame, C any d x d matrix, "
+    "B positive semi-definite (Mds_factor_optimal, every ordered field; uses Ky Fan's inequality from "
+    "Spectral_KyFan.v); that every rank-d symmetric matrix over the reals has that form, and the case of negative "
+    "eigenvalues, are cited; the rank argument 'points span <= d dimensions => all but d eigenvalues vanish' is a "
+    "hypothesis of Mds_recovers_euclidean_partial",
     "the randomized front-end (Gaussian test matrix, Gram-Schmidt, QR solve) is not modelled step by step: "
     "its algebra is the theorem Mds_randomized_exact_on_captured_range, its behaviour is tested end to end",
     "extraction (ExtrOcamlBasic only) + OCaml 4.13.1 + coq/extract/c05_driver.ml (hex rational parsing/printing)",
